@@ -10,8 +10,12 @@ package c09
 import (
 	"fmt"
 	"go/ast"
+	"go/token"
 	"go/types"
+	"regexp"
 	"strings"
+
+	"golang.org/x/tools/go/ast/astutil"
 )
 
 const varPrefix = "Ωv"
@@ -117,12 +121,29 @@ func precVariants(env *pkgEnv, src []byte, m ast.Expr, from, to int, repl string
 		return false // maximal operands only
 	})
 
-	// ---- context variants: the matched expression inside a tighter context ----
+	// ---- context variants: the matched expression inside a tighter context; each also combined with the
+	// loosest operand variant (a template that is a bare placeholder is as loose as what it is bound to) ----
 	if tv, ok := env.info.Types[m]; ok && tv.Type != nil && !tv.IsType() {
 		text := string(src[from:to])
+		var loose *variant
+		for i := range out {
+			if out[i].kind == "operand:add" || out[i].kind == "operand:or" {
+				loose = &out[i]
+				break
+			}
+		}
 		ctx := func(form, pre, post string) {
 			out = append(out, variant{kind: "context:" + form, src: string(src[:from]) + pre + text + post + string(src[to:])})
+			if loose != nil {
+				// the operand variant only changed bytes inside [from,to) and appended declarations
+				decls := strings.LastIndex(loose.src, "\nvar "+varPrefix)
+				if decls > 0 {
+					inner := loose.src[from : decls-(len(src)-to)]
+					out = append(out, variant{kind: "combined:" + form, src: string(src[:from]) + pre + inner + post + string(src[to:]) + loose.src[decls:]})
+				}
+			}
 		}
+
 		// only where the surrounding code stays type-correct whatever the result type of the context is:
 		// the synthesised inputs use the match as `_ = M`, a condition or an argument, so keep the type
 		switch u := tv.Type.Underlying().(type) {
@@ -147,4 +168,44 @@ func precVariants(env *pkgEnv, src []byte, m ast.Expr, from, to int, repl string
 		}
 	}
 	return out
+}
+
+var operandFormRE = regexp.MustCompile(`\*Ωvp\d+|Ωva\d+ (?:\+|\|\|) Ωvb\d+`)
+
+// operandRegrouped reports whether a variant operand copied into the replacement (which starts at byte from of the
+// patched file) is not read as one expression there.
+func operandRegrouped(penv *pkgEnv, file string, from int, repl []byte) bool {
+	for _, pf := range penv.files {
+		if penv.fset.Position(pf.Pos()).Filename != file {
+			continue
+		}
+		base := penv.fset.File(pf.Pos()).Base()
+		for _, loc := range operandFormRE.FindAllIndex(repl, -1) {
+			np, exact := astutil.PathEnclosingInterval(pf, token.Pos(base+from+loc[0]), token.Pos(base+from+loc[1]))
+			if len(np) == 0 {
+				continue
+			}
+			if _, isE := np[0].(ast.Expr); !exact || !isE {
+				return true
+			}
+		}
+	}
+	return false
+}
+
+// spanIsOneExpr reports whether bytes [start,end) of the named file of penv are exactly one expression node.
+func spanIsOneExpr(penv *pkgEnv, file string, start, end int) bool {
+	for _, pf := range penv.files {
+		if penv.fset.Position(pf.Pos()).Filename != file {
+			continue
+		}
+		base := penv.fset.File(pf.Pos()).Base()
+		np, exact := astutil.PathEnclosingInterval(pf, token.Pos(base+start), token.Pos(base+end))
+		if len(np) == 0 {
+			return true
+		}
+		_, isE := np[0].(ast.Expr)
+		return exact && isE
+	}
+	return true
 }
